@@ -6,6 +6,7 @@ CONSTANTS
   MaxUrl = 2
   ReuseOnLookup = FALSE
   FabricatedNorm = TRUE
+  RejectCollision = TRUE
   EmptyParam = FALSE
   WildHostCheck = TRUE
   KF_Shadow = TRUE
@@ -13,5 +14,5 @@ CONSTANTS
   NChunks = 8
   EmitPrefix = ""
 SPECIFICATION Spec
-INVARIANTS Accepted OrderIndependent
+INVARIANTS Accepted OrderIndependent OneReading
 CHECK_DEADLOCK FALSE
